@@ -741,7 +741,50 @@ def run(ctx, model):
         pool.join()
     if stopped:
         ctx.notes.append("stopped early: more than 25 differences between model and implementation")
+    deadline_scenarios(ctx, cov)
     return cov
+
+
+def deadline_scenarios(ctx, cov):
+    """The timeout is a DEADLINE for the whole call: bytes that keep arriving (at intervals shorter than the timeout) without
+    completing a response must not keep the call alive, and a response completed after the deadline is not this call's."""
+    import pty
+    import threading
+    import tty
+    tup = common.import_impl()
+    for name, tail in (("noise only", b""), ("response completed after the deadline", b"\x1b_Gi=9;OK\x1b\\")):
+        master, slave = pty.openpty()
+        tty.setraw(slave)
+        inp = os.fdopen(slave, "rb", buffering=0, closefd=False)
+        t = tup.graphics_terminal.GraphicsTerminal(out_command=common.RecStream(), out_display=common.RecStream(), in_response=inp, in_userinput=inp)
+        stop = threading.Event()
+
+        def feeder():
+            t0 = time.time()
+            while time.time() - t0 < 2.6 and not stop.is_set():
+                os.write(master, b"x")
+                time.sleep(0.12)
+            if tail and not stop.is_set():
+                os.write(master, tail)
+        th = threading.Thread(target=feeder, daemon=True)
+        th.start()
+        t0 = time.time()
+        try:
+            r = t.receive_response(timeout=0.5)
+            got = {"valid": bool(r.is_valid), "image_id": r.image_id}
+        except Exception as e:  # noqa: BLE001
+            got = {"exc": type(e).__name__}
+        wall = time.time() - t0
+        stop.set()
+        th.join(timeout=5)
+        os.close(master)
+        os.close(slave)
+        cov.add({"scenario": name, "wall": round(wall, 2), "result": got}, klass="deadline/" + name.split()[0])
+        if wall > 1.6 or got.get("valid"):
+            ctx.violations.append({"signature": {"class": "deadline-not-honoured", "mode": "recv"},
+                                   "what": f"receive_response(timeout=0.5) while a byte arrives every 0.12 s ({name}): returned after {wall:.2f} s with {got}; "
+                                           "the result must be marked invalid once 0.5 s have passed",
+                                   "case": {"kind": "deadline", "scenario": name}})
 
 
 def judge(ctx, cov, c, impl):
@@ -761,6 +804,12 @@ def judge(ctx, cov, c, impl):
 def replay(ctx, model, rec):
     common.scrub_process_env()
     common.import_impl()
+    if rec.get("case", {}).get("kind") == "deadline":
+        n0 = len(ctx.violations)
+        deadline_scenarios(ctx, common.Coverage("replay"))
+        mine = ctx.violations[n0:]
+        del ctx.violations[n0:]
+        return {"violates": bool(mine), "violations": [v["what"] for v in mine][:3]}
     c = fat_case(rec["case"])
     cases = [c]
     probs = build_spec_streams(model, cases)
